@@ -16,7 +16,7 @@ def aero_surface(mesh, name="wing", symmetry=True, **kw):
 
 
 def build_aero(surfaces, v=248.136, alpha=5.0, beta=0.0, Mach=0.84, re=1.0e6, rho=0.38, cg=(0.0, 0.0, 0.0),
-               compressible=False, rotational=False, omega=None, height_agl=8000.0, geom=False, S_ref_total=None, setup_kw=None):
+               compressible=False, rotational=False, omega=None, height_agl=8000.0, geom=False, S_ref_total=None, setup_kw=None, height_units="m"):
     """An AeroPoint fed by Geometry groups (geom=True) or directly by def_mesh/t_over_c (geom=False)."""
     from openaerostruct.geometry.geometry_group import Geometry
     from openaerostruct.aerodynamics.aero_groups import AeroPoint
@@ -30,7 +30,7 @@ def build_aero(surfaces, v=248.136, alpha=5.0, beta=0.0, Mach=0.84, re=1.0e6, rh
     ivc.add_output("rho", val=rho, units="kg/m**3")
     ivc.add_output("cg", val=np.array(cg, dtype=float), units="m")
     if any(s.get("groundplane", False) for s in surfaces):
-        ivc.add_output("height_agl", val=height_agl, units="m")
+        ivc.add_output("height_agl", val=height_agl, units=height_units)
     if rotational:
         ivc.add_output("omega", val=np.array(omega if omega is not None else [0.0, 0.0, 0.0]), units="rad/s")
     prob.model.add_subsystem("flow", ivc, promotes=["*"])
